@@ -1088,12 +1088,15 @@ func (ds *AnySource) ChangeGroupTrigger(turnon bool, gts *GroupTriggerState) err
 	if turnon {
 		changer = ds.broker.AddConnection
 	}
+	var firstErr error
 	for source, receivers := range gts.Connections {
 		for _, receiver := range receivers {
-			changer(source, receiver)
+			if err := changer(source, receiver); err != nil && firstErr == nil {
+				firstErr = err // report invalid channel numbers to the caller (valid pairs are still applied)
+			}
 		}
 	}
-	return nil
+	return firstErr
 }
 
 // StopTriggerCoupling turns off all trigger coupling, including all group triggers and FB/Err coupling.
